@@ -86,6 +86,9 @@ pub struct MatchCase {
     /// Pattern arguments: variables or wildcards (other terms only occur in mutants).
     pub args: Vec<Term>,
     pub body: Vec<Stmt>,
+    /// mutants only: printed verbatim instead of `ctor(args)`
+    #[serde(default)]
+    pub raw_pattern: Option<String>,
 }
 
 #[derive(Clone, Debug, PartialEq, Eq, Hash, Serialize, Deserialize)]
